@@ -7,7 +7,7 @@
 From Coq Require Import ZArith NArith String Ascii List Bool.
 Import ListNotations.
 From Cffi Require Import C09.Prim C09.Gen C09.Model C30.Model C30.Proofs C30.Proofs2.
-From Cffi Require C31.Model.
+From Cffi Require C31.Model C31.Proofs2.
 Open Scope Z_scope.
 Open Scope string_scope.
 
@@ -58,12 +58,28 @@ Theorem C30_process_macro_closed : forall value x, process_macro value = Err x -
 Proof. exact process_macro_closed. Qed.
 Print Assumptions C30_process_macro_closed.
 
-(* _preprocess (model of C31): _put_back_line_directives now converts its failures (fix 5595182).  In the model
-   the only error outcomes are CDefError and `Unmodelled` (the remainder of a '#line@' line is not [0-9]+ :
-   Python's int() either fails -> CDefError, or accepts a sign/blank/underscore form, which is not modelled) *)
-Theorem C30_preprocess_closed : forall s x, C31.Model.preprocess s = C31.Model.Err x ->
-  x = C31.Model.CDefError \/ x = C31.Model.Unmodelled.
-Proof. intros s x _. destruct x; auto. Qed.
+(* _preprocess (model of C31, tied to the real _preprocess on every run).  The model's exception type has the
+   classes that occur in _put_back_line_directives: replace() by itself raises ValueError (a directive-like
+   line that is not a '#line@N' placeholder; int() failing on N, with Python's int() grammar modelled) or
+   IndexError (N out of range, with Python's negative indices modelled) ... *)
+Theorem C30_replace_raw_errors : forall l st x, C31.Model.replace_raw l st = C31.Model.Err x ->
+  x = C31.Model.ValueError \/ x = C31.Model.IndexError.
+Proof. exact C31.Proofs2.replace_raw_errors. Qed.
+Print Assumptions C30_replace_raw_errors.
+
+(* ... and since fix 5595182 catches exactly these two classes, every failure of the whole _preprocess is a
+   CDefError (all texts).  Not vacuous: with `except ValueError` only, "/*\n*/#line@7" would give IndexError *)
+Theorem C30_preprocess_closed : forall s x, C31.Model.preprocess s = C31.Model.Err x -> x = C31.Model.CDefError.
+Proof. exact C31.Proofs2.preprocess_errors. Qed.
+Print Assumptions C30_preprocess_closed.
+
+Example C30_replace_raw_witnesses :
+  C31.Model.replace_raw [32;35;32;53]%N [] = C31.Model.Err C31.Model.ValueError /\            (* " # 5" *)
+  C31.Model.replace_raw [35;108;105;110;101;64;55]%N [] = C31.Model.Err C31.Model.IndexError /\    (* "#line@7" *)
+  C31.Model.replace_raw [35;108;105;110;101;64;48;120]%N [[1%N]] = C31.Model.Err C31.Model.ValueError /\  (* "#line@0x" *)
+  C31.Model.replace_raw [35;108;105;110;101;64;45;49]%N [[1%N]; [2%N]] = C31.Model.Ok [2%N] /\      (* "#line@-1" *)
+  C31.Model.replace_raw [35;108;105;110;101;64;32;43;49;95;48;32]%N [] = C31.Model.Err C31.Model.IndexError.  (* "#line@ +1_0 " *)
+Proof. vm_compute. repeat split; reflexivity. Qed.
 
 (* the former witnesses (fixed finding line_directive_put_back):   "/**/# 5"   and   "/*\n*/#line@7" *)
 Example C30_preprocess_former_witnesses :
@@ -72,6 +88,9 @@ Example C30_preprocess_former_witnesses :
 Proof. split; vm_compute; reflexivity. Qed.
 
 (* ---- non-vacuity ---- *)
+Example C30_wf_example : wf (Binary "<<" (Unary "-" (lit "0x1p3")) (Binary "/" (Id [120%N]) (lit "0"))).
+Proof. simpl. repeat split; discriminate. Qed.
+
 Example C30_examples :
   py_eval [] (Binary "/" (lit "5") (lit "0")) = Err CDefError /\
   py_eval [] (Binary "%" (lit "5") (Binary "-" (lit "1") (lit "1"))) = Err CDefError /\
